@@ -200,6 +200,49 @@ def gen_tool_input(rng, d, idx):
     return {"model": model, "fmt": fmt, "vocab": vocab, "pvocab": phrase_vocab, "nsent": nsent, "sizes": sizes}
 
 
+def proc_tree_idle(pid):
+    """every thread of the process and of its descendants sleeps ('S'): a deadlock looks like this sample after sample, a run
+    that is merely slow on a loaded machine has a runnable ('R') thread"""
+    pids, todo = [], [pid]
+    while todo:
+        q = todo.pop()
+        pids.append(q)
+        try:
+            for t in os.listdir("/proc/%d/task" % q):
+                try:
+                    todo += [int(x) for x in open("/proc/%d/task/%s/children" % (q, t)).read().split()]
+                except (OSError, ValueError):
+                    pass
+        except OSError:
+            pass
+    for q in pids:
+        try:
+            for t in os.listdir("/proc/%d/task" % q):
+                st = open("/proc/%d/task/%s/stat" % (q, t)).read()
+                if st[st.rindex(")") + 2] not in "SZX":
+                    return False
+        except (OSError, ValueError, IndexError):
+            pass
+    return True
+
+
+def communicate_progress(p, soft_limit, hard_factor=40):
+    """p.communicate() that reports a hang (raises TimeoutExpired) only when, after soft_limit seconds, the process tree has
+    been asleep for 15 consecutive samples (3 s), or after hard_factor * soft_limit seconds"""
+    t0 = time.time()
+    idle = 0
+    while True:
+        try:
+            return p.communicate(timeout=soft_limit if idle == 0 and time.time() - t0 < soft_limit else 0.2)
+        except subprocess.TimeoutExpired:
+            el = time.time() - t0
+            if el < soft_limit:
+                continue
+            idle = idle + 1 if proc_tree_idle(p.pid) else 0
+            if idle >= 15 or el > hard_factor * soft_limit:
+                raise
+
+
 def read_outputs(prefix, n):
     res = []
     for i in range(n):
@@ -265,7 +308,7 @@ def tool_checks(ctx, stock, jitter, n_inputs):
                 p = subprocess.Popen(["sh", "-c", cmd], stdout=subprocess.PIPE, stderr=subprocess.PIPE, env=e)
                 bt = None
                 try:
-                    o, err = p.communicate(timeout=limit)
+                    o, err = communicate_progress(p, limit)
                     rc = p.returncode
                 except subprocess.TimeoutExpired:
                     rcg, bt, _ = vlib.sh(["gdb", "-p", str(p.pid), "-batch", "-ex", "thread apply all bt 8"], timeout=40)
@@ -374,7 +417,7 @@ def big_tool_checks(ctx, stock, jitter):
                     e.update(env)
                 p = subprocess.Popen(["sh", "-c", cmd], stdout=subprocess.PIPE, stderr=subprocess.PIPE, env=e, start_new_session=True)
                 try:
-                    p.communicate(timeout=limit)
+                    communicate_progress(p, limit)
                     rc = p.returncode
                 except subprocess.TimeoutExpired:
                     try:
@@ -419,7 +462,7 @@ def run_filter(cmd, limit, env=None):
         e.update(env)
     p = subprocess.Popen(["sh", "-c", cmd], stdout=subprocess.PIPE, stderr=subprocess.PIPE, env=e, start_new_session=True)
     try:
-        o, err = p.communicate(timeout=limit)
+        o, err = communicate_progress(p, limit)
         return p.returncode, err.decode("utf-8", "replace")
     except subprocess.TimeoutExpired:
         try:
